@@ -31,6 +31,7 @@ Plan Gen(uint64_t seed, Tier tier)
     p.knobs["switch_per_1024"] = rng.pick({1, 1, 1}) == 0 ? 64 : (int64_t)rng.pick({1, 1, 1, 1}) * 0 + (int64_t)(64 << rng.below(4));
     p.knobs["pct_depth"] = rng.range(2, 5);
     p.knobs["sched_seed"] = (int64_t)(rng.next() >> 8);
+    p.knobs["spurious"] = rng.chance(1, 4) ? 1 : 0;
     int nops = (int)rng.range(6, tier == Tier::THOROUGH ? 24 : 12);
     for (int i = 0; i < nops; ++i) {
         Op op;
@@ -61,6 +62,7 @@ void Run(Ctx& ctx)
     tc.switch_per_1024 = (uint32_t)std::clamp<int64_t>(ctx.knob("switch_per_1024", 256), 1, 1024);
     tc.pct_depth = (int)ctx.knob("pct_depth", 3);
     tc.pct_expected_points = 4000;
+    tc.spurious_wakeups = ctx.knob("spurious", 0) != 0;
     threadsim::Arm(tc);
     {
         ChainSimConfig cfg;
@@ -96,6 +98,7 @@ void Run(Ctx& ctx)
             }
         };
         sync_twin("base chain");
+        threadsim::RedrawPct(2000 * (ctx.plan.ops.size() + 1)); // the change points belong into the workload, not the base chain
         for (const Op& op : ctx.plan.ops) {
             cs.ExecOp(op);
             sync_twin(DescribeChainOp(op).c_str());
@@ -118,6 +121,7 @@ void Run(Ctx& ctx)
     ctx.probe("threads_created", st.threads_created);
     ctx.probe("thread_switches", st.switches);
     if (st.timed_out_waits) ctx.probe("timed_waits_expired", st.timed_out_waits);
+    if (st.spurious) ctx.fault("spurious_condvar_wakeup", st.spurious);
     ctx.fingerprint(st.schedule_hash);
     ctx.evf("schedule hash %016llx switches %llu", (unsigned long long)st.schedule_hash, (unsigned long long)st.switches);
     if (st.switches > 10) ctx.nontrivial = true;
